@@ -7,6 +7,7 @@ at most one acceptance per (connection, nonce), origin of signatures) ∧ `PInv`
 history) ∧ `AInv` (every `address_to_peers` entry is backed by an acceptance). `inv_step` : preserved by every operation.
 -/
 namespace Saito.Hs
+variable {fx : Bool}
 
 /-! ## association lists -/
 
@@ -454,7 +455,7 @@ theorem inv_acceptResponse {H : Nat} {st : State} (h : Inv H st) (node c : Nat) 
 
 theorem inv_deliverResponse {H : Nat} {st : State} (h : Inv H st) (node c : Nat) (r : Response) (pick : Nat)
     (hnode : node < H) (hrc : r.challenge < st.next) (hs : ∀ s, r.sig = some s → s ∈ st.sigs) :
-    Inv H (deliverResponse st node c r pick).1 := by
+    Inv H (deliverResponse fx st node c r pick).1 := by
   unfold deliverResponse
   split
   · exact h
@@ -472,11 +473,13 @@ theorem inv_deliverResponse {H : Nat} {st : State} (h : Inv H st) (node c : Nat)
           · exact inv_failResponse h node c p
           · split
             · split
-              · exact h
+              · split
+                · exact inv_failResponse h node c p
+                · exact h
               · exact inv_acceptResponse h node c p r n pick hnode hg hch (hs _ hsig') hrc
             · exact inv_acceptResponse h node c p r n pick hnode hg hch (hs _ hsig') hrc
 
-theorem inv_step {H : Nat} {st : State} (h : Inv H st) (op : Op) : Inv H (step H st op).1 := by
+theorem inv_step {H : Nat} {st : State} (h : Inv H st) (op : Op) : Inv H (step fx H st op).1 := by
   cases op with
   | addStatic node c => simp only [step]; split; exact inv_addStatic h node c; exact h
   | connect node c => simp only [step]; split; exact inv_connect h node c; exact h
@@ -492,12 +495,12 @@ theorem inv_step {H : Nat} {st : State} (h : Inv H st) (op : Op) : Inv H (step H
   | attackerSign k n => exact inv_attackerSign h k n
 
 theorem inv_foldl {H : Nat} (ops : List Op) {st : State} (h : Inv H st) :
-    Inv H (ops.foldl (fun st op => (step H st op).1) st) := by
+    Inv H (ops.foldl (fun st op => (step fx H st op).1) st) := by
   induction ops generalizing st with
   | nil => exact h
   | cons op rest ih => exact ih (inv_step h op)
 
-theorem inv_run (H : Nat) (ops : List Op) : Inv H (run H ops) := inv_foldl ops (inv_init H)
+theorem inv_run (H : Nat) (ops : List Op) : Inv H (run fx H ops) := inv_foldl ops (inv_init H)
 
 /-! ## one-step effects (used by the frame theorems of C17) -/
 
@@ -510,8 +513,8 @@ def target : Op → Option (Nat × Nat)
 /-- every operation other than the delivery of a response: never panics, never touches `address_to_peers`, and only touches the
     peer entry of the connection it is delivered to -/
 theorem simple_effect (H : Nat) (st : State) (op : Op) (hop : ∀ node c r pick, op ≠ .deliverResponse node c r pick) :
-    (step H st op).2 ≠ .panic ∧ (step H st op).1.addr = st.addr ∧
-    ∀ a, target op ≠ some a → mget (step H st op).1.peers a = mget st.peers a := by
+    (step fx H st op).2 ≠ .panic ∧ (step fx H st op).1.addr = st.addr ∧
+    ∀ a, target op ≠ some a → mget (step fx H st op).1.peers a = mget st.peers a := by
   have hset : ∀ (node c : Nat) (q : Peer) (a : Nat × Nat), some (node, c) ≠ some a →
       mget (mset st.peers (node, c) q) a = mget st.peers a := fun node c q a hne => by
     rw [mget_mset, if_neg (fun h => hne (by rw [h]))]
